@@ -99,17 +99,20 @@ var (
 // the kernel's ephemeral range (so the kernel never hands them to the lab's
 // other listeners), walked sequentially from a per-process offset.
 func FreePort() int {
-	const lo, hi = 10000, 32000
+	// 10000..19999 in steps of 3: the ports next to a handed-out port are never handed out, so
+	// a "port +- 1" near-miss of one worker cannot land on a listener of another worker; C03's
+	// deliberately adjacent triples live in 20001..29004
+	const lo, hi, step = 10000, 19999, 3
 	portMu.Lock()
 	defer portMu.Unlock()
 	if portNext == 0 {
-		portNext = lo + (os.Getpid()*7919)%(hi-lo)
+		portNext = lo + ((os.Getpid()*7919)%(hi-lo))/step*step + 1
 	}
 	for tries := 0; tries < 4*(hi-lo); tries++ {
 		p := portNext
-		portNext++
+		portNext += step
 		if portNext >= hi {
-			portNext = lo
+			portNext = lo + 1
 		}
 		l, err := net.Listen("tcp", fmt.Sprintf("127.0.0.1:%d", p))
 		if err != nil {
